@@ -152,6 +152,7 @@ ST_PROBE = {'probe': {'devs': [1, 2, 3, 4], 'ifs': [[0, 0, 0, 1], [0, 0, 0, 2], 
 ST_MC = {'kind': 'mc', 'tree': True, 'name': 'status', 'module': 'MC_Status', 'comp': 'st', 'trace': 'TraceStatus',
          'cfg': {'quick': 'MC_Status_quick.cfg', 'thorough': 'MC_Status_thorough.cfg'}, 'extra': ST_PROBE,
          'invariants': ['InvC16']}
+ST_WALKS = dict(ST_MC, name='statuswalks', simulate={'quick': (600, 40), 'thorough': (8000, 60)})
 ST_RANDOM = {'kind': 'gen', 'name': 'randomstatus', 'gen': st_random, 'comp': 'st', 'trace': 'TraceStatus'}
 
 
@@ -338,6 +339,10 @@ DEC_MALFORMED = {'kind': 'mc', 'name': 'malformed', 'module': 'MC_Frames', 'comp
 DEC_ARBITRARY = {'kind': 'gen', 'name': 'arbitrary-asan', 'gen': dec_arbitrary, 'comp': 'dec', 'trace': 'TraceDec', 'variant': 'asan'}
 DEC_FRAMES_ASAN = {'kind': 'gen', 'name': 'randomframes-asan', 'gen': dec_frames_c02, 'comp': 'dec', 'trace': 'TraceDec', 'variant': 'asan'}
 DEC_ARBITRARY_P = {'kind': 'gen', 'name': 'arbitrary-guardpages', 'gen': dec_arbitrary_plain, 'comp': 'dec', 'trace': 'TraceDec'}
+DEC_ANY_WALKS = dict(DEC_ANY, name='anyhistorywalks', simulate={'quick': (16, 30), 'thorough': (160, 40)},
+                     cfg={'quick': 'MC_DecAny_walks.cfg', 'thorough': 'MC_DecAny_walks.cfg'})
+DEC_LINK_WALKS = dict(DEC_FAULTS, name='faultwalks', simulate={'quick': (32, 30), 'thorough': (320, 40)},
+                      cfg={'quick': 'MC_Link_walks.cfg', 'thorough': 'MC_Link_walks.cfg'})
 DEC_STREAMS = {'kind': 'gen', 'name': 'streams', 'gen': dec_streams, 'comp': 'dec', 'trace': 'TraceDec'}
 DEC_RFAULTS = {'kind': 'gen', 'name': 'randomfaults', 'gen': dec_faults, 'comp': 'dec', 'trace': 'TraceDec'}
 DEC_RANY = {'kind': 'gen', 'name': 'randomhistory', 'gen': dec_anyhist, 'comp': 'dec', 'trace': 'TraceDec'}
@@ -368,7 +373,7 @@ PROPS = {
             'rule': 'as C09; every encode event also logs the frames of a fresh encoder with the same ids; monitor '
                     'SameUpToShift. Non-trivial = distinct histories whose second or later encode call needed segmentation.',
             'assumptions': COMMON_ASSUMPTIONS},
-    'C05': {'level': 'model_checking', 'stages': [DEC_REASM, DEC_STREAMS], 'nontrivial_case': nt_dec_segmented, 'nontrivial_op': ntop_segment,
+    'C05': {'level': 'model_checking', 'stages': [DEC_REASM, DEC_LINK_WALKS, DEC_STREAMS], 'nontrivial_case': nt_dec_segmented, 'nontrivial_op': ntop_segment,
             'rule': 'MC_Link/Reassembly: per-endpoint senders of well-formed streams (unsegmented, 2..MaxSegs segments of every '
                     'size in SegSizes, optional trailing bytes / zero padding after a segment, counters crossing 65535->0), all '
                     'interleavings up to MaxFrames frames; every transition replayed on the real decoder (tree replay with '
@@ -377,14 +382,14 @@ PROPS = {
                     'returns exactly what the sender-side ghost expects (C05 in TraceDec). Non-trivial = distinct decode operations '
                     'feeding a segment (tree stages) / distinct episodes feeding at least one segment (random stage).',
             'assumptions': COMMON_ASSUMPTIONS},
-    'C06': {'level': 'model_checking', 'stages': [DEC_FAULTS, DEC_RFAULTS], 'nontrivial_case': nt_dec_fault, 'nontrivial_op': ntop_fault,
+    'C06': {'level': 'model_checking', 'stages': [DEC_FAULTS, DEC_LINK_WALKS, DEC_RFAULTS], 'nontrivial_case': nt_dec_fault, 'nontrivial_op': ntop_fault,
             'rule': 'MC_Link/Faults: the Reassembly senders plus every placement of up to MaxFaults faults (drop, duplicate, '
                     'hold/release reordering, corrupt version, corrupt type); tree replay on the real decoder; plus seeded random '
                     'fault sequences. Monitors NoCorruption (every delivered packet equals a declared sent message of its '
                     'endpoint) and Recovery (a last segment extending a clean run delivers). Non-trivial = distinct faulted '
                     'operations (tree stage) / distinct episodes containing at least one fault (random stage).',
             'assumptions': COMMON_ASSUMPTIONS},
-    'C17': {'level': 'model_checking', 'stages': [DEC_ANY, DEC_RANY], 'nontrivial_case': nt_dec_segmented, 'nontrivial_op': ntop_segment,
+    'C17': {'level': 'model_checking', 'stages': [DEC_ANY, DEC_ANY_WALKS, DEC_RANY], 'nontrivial_case': nt_dec_segmented, 'nontrivial_op': ntop_segment,
             'rule': 'MC_DecAny: every history up to MaxFrames buffers over an alphabet of well-formed, orphan, out-of-order, '
                     'changed-version/type, trailing-byte, multi-message, invalid, truncated, header-only, undersized and '
                     'TECMP-routed buffers on NEndpoints endpoints, counters crossing the wrap; tree replay on the real decoder; '
@@ -392,7 +397,7 @@ PROPS = {
                     'buffered bytes <= bytes of the run. Non-trivial = distinct decode operations feeding a segment (tree stage) / '
                     'distinct episodes feeding at least one segment (random stage).',
             'assumptions': COMMON_ASSUMPTIONS + ['needs the read-only hook Decoder::verifPending()']},
-    'C18': {'level': 'model_checking', 'stages': [DEC_ANY, DEC_RANY], 'nontrivial_case': nt_dec_any, 'nontrivial_op': ntop_decode,
+    'C18': {'level': 'model_checking', 'stages': [DEC_ANY, DEC_ANY_WALKS, DEC_RANY], 'nontrivial_case': nt_dec_any, 'nontrivial_op': ntop_decode,
             'rule': 'as C17; the executor also runs one real solo decoder per endpoint on that endpoint\'s frames only; monitor: '
                     'packets returned by the shared decoder = packets of the solo decoder, every returned packet carries the '
                     'frame\'s endpoint, non-CMP buffers leave the pending table untouched. Non-trivial = distinct decode operations (tree stage) / '
@@ -427,7 +432,7 @@ PROPS = {
                     'interleaved with header setters. Monitor C13 (raw = Render(header before, args), views give the arguments '
                     'back, own validity check and decoder accept). Non-trivial = distinct episodes that build on a used object.',
             'assumptions': COMMON_ASSUMPTIONS},
-    'C16': {'level': 'model_checking', 'stages': [ST_MC, ST_RANDOM], 'nontrivial_case': nt_st,
+    'C16': {'level': 'model_checking', 'stages': [ST_MC, ST_WALKS, ST_RANDOM], 'nontrivial_case': nt_st,
             'rule': 'MC_Status: the complete (finite, unbounded-depth) state graph of the tracker over Devs x Ifs x Tags with '
                     'capture-module status, interface status (also for devices that never sent a capture-module status), data '
                     'packets, removals and clear: the operational vector model refines the abstract latest-message map (InvC16); '
